@@ -3,7 +3,7 @@ from __future__ import annotations
 
 import json
 
-from . import fam_deep, fam_expr, fam_iter, fam_multi, fam_names, fam_pairs, fam_pool, fam_proc, fam_repo, fam_sql
+from . import fam_deep, fam_expr, fam_proof, fam_iter, fam_multi, fam_names, fam_pairs, fam_pool, fam_proc, fam_repo, fam_sql
 from .core import Part, open_findings
 
 REGISTRY = {
@@ -41,7 +41,7 @@ REGISTRY = {
     "C04": {"families": [fam_pairs.run], "assumptions": [
         "targets: every row list of length <=3 over a,b in 0..1 (85 targets); slices: one-column targets of length 0..6",
         "tag reuse (a calculated tag that already exists upstream) is outside the documented contract and not generated"]},
-    "C05": {"families": [fam_pairs.run, fam_iter.run], "assumptions": [
+    "C05": {"families": [fam_pairs.run, fam_iter.run, fam_proof.run], "assumptions": [
         "targets: every row list of length <=3 over a,b in 0..1; all slice pairs with start 0..4, stop None or start..6 on one-column targets of length 0..6"]},
     "C13": {"families": [fam_expr.run], "assumptions": ["rows range over a,b in -3..4"]},
 }
